@@ -269,6 +269,12 @@ func (h *Handler) fresh() error {
 	if h.st != nil && h.n%150 != 0 && h.dirty < 20 {
 		return nil
 	}
+	if h.st != nil && h.dirty > 0 {
+		// goroutines of calls that panicked or blocked may still hold the store: closing it under them
+		// would make THEM panic during a later request. Leave instead (no Go panic): the supervisor
+		// retries the request in flight on a fresh worker.
+		os.Exit(3)
+	}
 	if h.st != nil {
 		h.st.Destroy()
 		os.RemoveAll(h.dir)
